@@ -161,7 +161,7 @@ def _map_substrates_to_products(
 
 
 def _unpack_stoichiometries(
-    stoichiometries: Mapping[str, int],
+    stoichiometries: Mapping[str, float],
 ) -> tuple[list[str], list[str]]:
     """Split stoichiometries into substrates and products.
 
@@ -180,10 +180,14 @@ def _unpack_stoichiometries(
     substrates = []
     products = []
     for k, v in stoichiometries.items():
-        if v < 0:
-            substrates.extend([k] * -v)
+        n = int(v)
+        if n != v:
+            msg = f"Stoichiometric coefficient of {k} must be a whole number, got {v}"
+            raise ValueError(msg)
+        if n < 0:
+            substrates.extend([k] * -n)
         else:
-            products.extend([k] * v)
+            products.extend([k] * n)
     return substrates, products
 
 
